@@ -178,6 +178,12 @@ def drive(strategy, fn, *, n: int, seed: int, col: Collector | None = None):
         _t()
     except _BudgetUsedUp:
         pass
+    except BaseException:
+        # Hypothesis may re-run the example in which the budget ran out (and then complains that it stopped drawing earlier
+        # than before): a used-up budget means "explored less", whatever the engine makes of the interruption
+        if col is not None and col.truncated:
+            return
+        raise
 
 
 # -- watchdog ----------------------------------------------------------------------
